@@ -153,3 +153,11 @@ Proof. exact no_escape_detects_unprotected_parse. Qed.
 Theorem C20_all_callees_classified :
   forallb (fun t => let '(_, sites, _, _) := t in forallb (fun s => classified (s_callee s)) sites) flow_tools = true.
 Proof. exact all_callees_classified. Qed.
+
+(* ---- source-text pins (generated by harness/pinsets.py) ---- *)
+(* every function of these modules is, text for text (comments and docstrings excluded), the one the models of this
+   property were written against and validated against: harness/translate/srcdigest_t.py, Src/Pin_*.v *)
+From OV Require Import Gen.SrcDigestGen Src.Pin_core_lexer Src.Pin_core_parser Src.Pin_core_emitter Src.Pin_core_ast_nodes Src.Pin_core_constraints Src.Pin_core_holographic Src.Pin_core_validator Src.Pin_core_hydrator Src.Pin_core_schema_extractor Src.Pin_core_gbnf_compiler Src.Pin_mcp_write Src.Pin_mcp_validate Src.Pin_mcp_eject Src.Pin_mcp_compile_grammar Src.Pin_mcp_base_tool Src.Pin_schemas_loader.
+Theorem C20_pin_source_text :
+  src_core_lexer_pinned /\ src_core_parser_pinned /\ src_core_emitter_pinned /\ src_core_ast_nodes_pinned /\ src_core_constraints_pinned /\ src_core_holographic_pinned /\ src_core_validator_pinned /\ src_core_hydrator_pinned /\ src_core_schema_extractor_pinned /\ src_core_gbnf_compiler_pinned /\ src_mcp_write_pinned /\ src_mcp_validate_pinned /\ src_mcp_eject_pinned /\ src_mcp_compile_grammar_pinned /\ src_mcp_base_tool_pinned /\ src_schemas_loader_pinned.
+Proof. exact (conj src_core_lexer_pinned_ok (conj src_core_parser_pinned_ok (conj src_core_emitter_pinned_ok (conj src_core_ast_nodes_pinned_ok (conj src_core_constraints_pinned_ok (conj src_core_holographic_pinned_ok (conj src_core_validator_pinned_ok (conj src_core_hydrator_pinned_ok (conj src_core_schema_extractor_pinned_ok (conj src_core_gbnf_compiler_pinned_ok (conj src_mcp_write_pinned_ok (conj src_mcp_validate_pinned_ok (conj src_mcp_eject_pinned_ok (conj src_mcp_compile_grammar_pinned_ok (conj src_mcp_base_tool_pinned_ok src_schemas_loader_pinned_ok))))))))))))))). Qed.
